@@ -304,6 +304,12 @@ Theorem C16_errors_open_twice : forall add st c cur v arg,
   step_simple add st (SOpen c arg) = (st, err_res EAlreadyOpen).
 Proof. exact open_twice. Qed.
 
+(* a failed OPEN changes nothing: the cursor stays closed, no other cursor, variable or table is touched *)
+Theorem C16_failed_open_changes_nothing : forall add st c arg st1 res,
+  step_simple add st (SOpen c arg) = (st1, res) -> r_err res <> None -> st1 = st.
+Proof. exact failed_open_changes_nothing. Qed.
+Print Assumptions C16_failed_open_changes_nothing.
+
 Theorem C16_errors_redeclared : forall add st c m bs x src,
   blocks st = m :: bs -> cm_find c m = Some x -> step_simple add st (SDeclare c src) = (st, err_res ERedeclared).
 Proof. exact redeclared. Qed.
